@@ -14,31 +14,113 @@ import gen
 from canon import f2bits, bits2f
 from env import import_dit
 
-TRANSFORMS = ['relabel', 'relabel-reverse', 'class', 'row-order', 'dense', 'pad-space', 'names', 'names', 'permute-vars', 'log-sparse']
+TRANSFORMS = ['relabel', 'relabel-reverse', 'class', 'row-order', 'dense', 'pad-space', 'names', 'names', 'permute-vars', 'log-sparse',
+              # zero-probability outcomes stored in a distribution that stays flagged sparse, by each route the API offers
+              'zeros-ctor', 'zeros-assigned', 'zeros-dense-sparse',
+              # the variables sit at arbitrary positions of a longer joint distribution and are addressed by position
+              'embed', 'embed', 'embed']
+ZERO_ROUTES = ('zeros-ctor', 'zeros-assigned', 'zeros-dense-sparse')
+EMBED_MAX_VARS = 12
+N_QUICK = 600
+
+
+def block_case(rng, n):
+    """A distribution case (same keys as gen.rand_dist_case) whose support has a COMMON PART: every variable's symbols are
+    split into b classes (interleaved in sort order) and an outcome is possible only if all its symbols carry the same
+    class.  The Gacs-Korner / minimal-sufficient-statistic quantities are non-zero on such supports (they vanish on almost
+    every uniformly drawn support), so their invariance is not checked on the value 0 only.  With n >= 3 one variable may
+    be left free of the classes."""
+    klass = rng.choice(('str', 'tuple'))
+    b = rng.choice([2, 2, 3])
+    amax = 4 if n < 4 else 3
+    free = rng.randrange(n) if (n >= 3 and rng.random() < 0.3) else None
+    alphabets, cls = [], []
+    for i in range(n):
+        if i == free:
+            a = sorted(rng.sample(range(6), rng.randint(1, 2)))
+            alphabets.append(a)
+            cls.append(None)
+            continue
+        a = sorted(rng.sample(range(6), rng.randint(b, max(b, amax))))
+        lab = list(range(b)) + [rng.randrange(b) for _ in range(len(a) - b)]
+        rng.shuffle(lab)
+        alphabets.append(a)
+        cls.append(dict(zip(a, lab)))
+    support = []
+    for blk in range(b):
+        cells = [[]]
+        for i in range(n):
+            syms = alphabets[i] if cls[i] is None else [x for x in alphabets[i] if cls[i][x] == blk]
+            cells = [o + [x] for o in cells for x in syms]
+        k = rng.randint(1, min(len(cells), 4))
+        support += rng.sample(cells, k)
+    rng.shuffle(support)
+    pmf, style = gen.rand_prob_vector(rng, len(support))
+    return {'klass': klass, 'n': n, 'alphabets': alphabets, 'outs': support, 'pmf': [str(p) for p in pmf],
+            'space': None, 'base': 'linear', 'sparse': True, 'trim': True, 'names': None, 'style': style,
+            'spacekind': 'none'}
+
+
+def gk_from_definition(rows, groups):
+    """Gacs-Korner common information of the variable groups straight from its definition: the entropy of the finest
+    common function, i.e. of the connected components of the graph that joins the values (g, x_g) occurring together in
+    an outcome of POSITIVE probability.  rows: [(outcome, Fraction)]; exact masses, one float entropy at the end."""
+    parent = {}
+
+    def find(a):
+        parent.setdefault(a, a)
+        while parent[a] != a:
+            parent[a] = parent[parent[a]]
+            a = parent[a]
+        return a
+
+    live = [(o, p) for o, p in rows if p > 0]
+    for o, _ in live:
+        vs = [(gi, tuple(o[i] for i in g)) for gi, g in enumerate(groups)]
+        for v in vs[1:]:
+            parent[find(vs[0])] = find(v)
+    mass = {}
+    for o, p in live:
+        root = find((0, tuple(o[i] for i in groups[0])))
+        mass[root] = mass.get(root, 0) + p
+    return -sum(float(m) * math.log2(float(m)) for m in mass.values() if m > 0)
 
 
 class C08(object):
     id = 'C08'
-    rule = ("joint linear distributions of 2-4 variables x a transformation (per-variable symbol bijections incl. "
+    rule = ("joint linear distributions of 2-4 variables (support drawn uniformly, or made of 2-3 blocks so that the "
+            "variables have a common part and K, M are non-zero) x a transformation (per-variable symbol bijections incl. "
             "order-reversing ones, str<->tuple outcome class, permuted input order, dense / explicit zeros / enlarged "
-            "sample space, names instead of indices, variable permutation with permuted arguments, reordered groups) x "
+            "sample space, zero-probability outcomes stored in a distribution that stays sparse (constructor with "
+            "trim=False, assignment d[o] = 0, make_dense then make_sparse(trim=False); any subset of the null outcomes), "
+            "names instead of indices, variable permutation with permuted arguments, the variables placed at arbitrary "
+            "positions of a joint distribution of up to 12 variables whose other coordinates are constants, copies or an "
+            "independent coin and addressed by position, reordered groups) x "
             "a closed-form measure family (Shannon, 9 multivariate measures, 5 divergences and maximum correlation, "
             "K / M common informations, Shannon partition and complexity profile, 6 PID redundancy measures): f(d) "
             "against f(T d). The untransformed value is also compared with the model's value (Float) for the "
-            "entropy-combination measures. Non-trivial = at least 3 positive outcomes and a non-identity transformation")
+            "entropy-combination measures, and K of both forms with the entropy of the connected components of the "
+            "support (its definition, exact masses). Non-trivial = at least 3 positive outcomes and a non-identity transformation")
     tolerances = {'closed forms': 'atol 1e-9', 'measures with an optimiser inside (CCS)': '1e-5'}
     exhaustive = {}
 
     def gen(self, rng, tier):
-        n_cases = 150 if tier == 'quick' else 10000
+        n_cases = N_QUICK if tier == 'quick' else 10000
         for _ in range(n_cases):
             n = rng.choice([2, 3, 3, 4])
-            c = gen.rand_dist_case(rng, nmin=n, nmax=n, amax=3 if n < 4 else 2, bases=['linear'], allow_space=False,
-                                   allow_names=False, max_support=9, klasses=('str', 'tuple'))
+            if rng.random() < 0.3:
+                c = block_case(rng, n)
+                c['support'] = 'blocks'
+            else:
+                c = gen.rand_dist_case(rng, nmin=n, nmax=n, amax=3 if n < 4 else 2, bases=['linear'], allow_space=False,
+                                       allow_names=False, max_support=9, klasses=('str', 'tuple'))
+                c['support'] = 'uniform'
             gen.avoid_subnull(c)
             c['sparse'], c['trim'] = True, True
             c['transform'] = rng.choice(TRANSFORMS)
             c['family'] = rng.choice(['shannon', 'multivariate', 'multivariate', 'divergence', 'common', 'profile', 'pid', 'other', 'other'])
+            if c['support'] == 'blocks' and c['family'] in ('shannon', 'multivariate') and rng.random() < 0.5:
+                c['family'] = 'common'            # the supports made for the common informations mostly go to them
             if c['family'] == 'pid' and n < 3:
                 c['family'] = 'multivariate'      # a decomposition needs two sources and a target
             c['seed'] = rng.randrange(2 ** 31)
@@ -100,7 +182,67 @@ class C08(object):
             extra = [o for o in full if o not in outs][:3]
             return dit.Distribution([gen.to_py(o, klass) for o in outs + extra], pmf + [0.0] * len(extra),
                                     trim=False), ident
+        if T in ZERO_ROUTES:
+            # zero-probability outcomes of the sample space (any subset of them, often all) are STORED while the
+            # distribution stays flagged sparse; three routes of the public API lead there
+            fr = [Fraction(p) for p in case['pmf']]
+            live = [o for o, p in zip(outs, fr) if p > 0]
+            alph = [sorted(set(o[i] for o in live)) for i in range(n)]
+            missing = [list(o) for o in itertools.product(*alph) if list(o) not in live]
+            k = len(missing) if rs.randint(2) else int(rs.randint(0, len(missing) + 1))
+            extra = [missing[int(j)] for j in rs.permutation(len(missing))[:k]]
+            if T == 'zeros-ctor':
+                rows = [(o, p) for o, p in zip(outs, pmf)] + [(o, 0.0) for o in extra if o not in outs]
+                order = [int(j) for j in rs.permutation(len(rows))]
+                return dit.Distribution([gen.to_py(rows[j][0], klass) for j in order], [rows[j][1] for j in order],
+                                        trim=False), ident
+            d2 = d.copy()
+            if T == 'zeros-assigned':
+                for o in extra:
+                    d2[gen.to_py(o, klass)] = 0.0
+            else:
+                d2.make_dense()
+                d2.make_sparse(trim=False)
+            return d2, ident
+        if T == 'embed':
+            # a longer joint distribution: original variable i sits at position pos[i] (any order); every other position
+            # holds a constant, a copy of one of the variables, or (once) an independent biased coin.  The addressed
+            # variables have the same joint probabilities as before.
+            N = int(rs.randint(n + 1, EMBED_MAX_VARS + 1))
+            pos = [int(x) for x in rs.permutation(N)[:n]]
+            others = [j for j in range(N) if j not in pos]
+            fill = {}
+            noise = None
+            for j in others:
+                kind = int(rs.randint(4))
+                if kind == 0 and noise is None and len(outs) <= 8 and case['family'] != 'divergence':
+                    # (not for divergences of the WHOLE distributions: the cross entropy would gain the coin's entropy)
+                    noise = j
+                elif kind <= 1:
+                    fill[j] = ('copy', int(rs.randint(n)))
+                else:
+                    fill[j] = ('const', int(rs.randint(6)))
+            outs2, pmf2 = [], []
+            for o, p in zip(outs, pmf):
+                for sym, w in (((0, 0.25), (1, 0.75)) if noise is not None else ((None, 1.0),)):
+                    row = [0] * N
+                    for i in range(n):
+                        row[pos[i]] = o[i]
+                    for j, (kind, v) in fill.items():
+                        row[j] = o[v] if kind == 'copy' else v
+                    if noise is not None:
+                        row[noise] = sym
+                    outs2.append(row)
+                    pmf2.append(p * w)
+            return dit.Distribution([gen.to_py(o, klass) for o in outs2], pmf2), (lambda i: pos[i])
         raise ValueError(T)
+
+    @staticmethod
+    def restrict(d, a, n):
+        """The joint distribution of the n addressed variables (d itself unless they are embedded in a longer one)."""
+        if d.outcome_length() == n:
+            return d
+        return d.marginal([a(i) for i in range(n)])
 
     # ------------------------------------------------------------------ measure families
     def measures(self, case, rs):
@@ -146,8 +288,9 @@ class C08(object):
                     ('mss_common_information', lambda d, a: mv.mss_common_information(d, [A(a, g) for g in groups]))]
         elif fam == 'profile':
             from dit.profiles import ShannonPartition, ComplexityProfile
-            out += [('shannon_partition_atoms', lambda d, a: sorted(round(float(v), 9) for v in ShannonPartition(d).atoms.values())),
-                    ('complexity_profile', lambda d, a: [round(float(v), 9) for k, v in sorted(ComplexityProfile(d).profile.items())])]
+            R = lambda d, a: self.restrict(d, a, n)
+            out += [('shannon_partition_atoms', lambda d, a: sorted(round(float(v), 9) for v in ShannonPartition(R(d, a)).atoms.values())),
+                    ('complexity_profile', lambda d, a: [round(float(v), 9) for k, v in sorted(ComplexityProfile(R(d, a)).profile.items())])]
         elif fam == 'other':
             # closed-form functions of dit.other / dit.multivariate / dit.divergences that take rvs / crvs, addressed
             # through two groups and a conditioning group chosen in ANY order (not ascending, not covering everything)
@@ -169,10 +312,18 @@ class C08(object):
                     ('binding_information%s%s|%s' % (G1, G2, Z), twoc(mv.binding_information)),
                     ('generalized_dual_total_correlation(1)', lambda d, a: mv.generalized_dual_total_correlation(d, 1, [A(a, G1), A(a, G2)], A(a, Z))),
                     ]
-            if case['transform'] != 'pad-space':
+            one_point = all(len(set(o[i] for o in case['outs'])) == 1 for i in G1 + G2)
+            if one_point and case['transform'] == 'embed':
+                # disequilibrium divides by the largest value it can take on the sample space, which is 0 when the
+                # addressed variables have a single joint value: 0/0, returned as nan or +-inf according to rounding (the
+                # marginal of a longer distribution sums in another order); not judged
+                pass
+            elif case['transform'] != 'pad-space':
                 # defined relative to the equiprobable distribution over the sample space: they depend on it by definition
-                out += [('disequilibrium%s' % (G1 + G2), lambda d, a: O.disequilibrium(d, A(a, G1 + G2))),
-                        ('LMPR_complexity%s' % (G2 + G1), lambda d, a: O.LMPR_complexity(d, A(a, G2 + G1)))]
+                out += [('disequilibrium%s' % (G1 + G2), lambda d, a: O.disequilibrium(d, A(a, G1 + G2)))]
+                # (LMPR_complexity(d, rvs) used to divide by log2 of the size of the WHOLE joint sample space, so that it
+                # changed with the alphabets of variables that are not addressed: repaired, see KNOWN_FINDINGS.txt)
+                out += [('LMPR_complexity%s' % (G2 + G1), lambda d, a: O.LMPR_complexity(d, A(a, G2 + G1)))]
             if Z:
                 out += [('maximum_correlation%s%s|%s' % (G1, G2, Z), twoc(D.maximum_correlation)),
                         ('lower_intrinsic_mutual_information', twoc(mv.lower_intrinsic_mutual_information)),
@@ -200,7 +351,7 @@ class C08(object):
         r = core.Result()
         r.site = 'C08.%s.%s' % (case['family'], case['transform'])
         r.features = ['family=%s' % case['family'], 'transform=%s' % case['transform'], 'n=%d' % case['n'],
-                      'klass=%s' % case['klass']]
+                      'klass=%s' % case['klass'], 'support=%s' % case.get('support', 'uniform')]
         try:
             self.run_inner(case, drv, r)
         except core.DriverError:
@@ -221,15 +372,38 @@ class C08(object):
         d2, addr = self.transform(case, d, rs)
         ident = lambda i: i
         for name, f in self.measures(case, np.random.RandomState(case['seed'] + 1)):
+            if name.startswith('generalized_dual_total_correlation') and d2.outcome_length() > 6:
+                continue        # it builds the Shannon partition of ALL variables of the distribution: 2^N atoms
             a = f(d, ident)
-            b = f(d2, addr)
+            try:
+                b = f(d2, addr)
+            except Exception as e:  # noqa
+                import traceback
+                r.oracle_fail = ('%s = %s on the distribution but raises %s: %s after the transformation "%s"'
+                                 % (name, a, type(e).__name__, str(e)[:120], case['transform']))
+                r.detail = {'measure': name, 'before': str(a), 'traceback': traceback.format_exc()[-700:]}
+                return
             tol = 1e-5 if 'CCS' in name else 1e-9
             if not self.same(a, b, tol):
                 r.oracle_fail = '%s = %s on the distribution but %s after the transformation "%s"' % (name, a, b, case['transform'])
                 r.detail = {'measure': name, 'before': str(a), 'after': str(b)}
                 return
-        # correspondence: the model's value for a representative entropy-combination measure
         n = case['n']
+        if case['family'] == 'common':
+            # the common value itself, from the definition of K (components of the support), for the groups used above
+            rows_def = [(list(o), Fraction(p)) for o, p in zip(case['outs'], case['pmf'])]
+            import dit.multivariate as mv
+            for groups in ([[i] for i in range(n)], [[0], [1]], [[0, 1], [n - 1]] if n >= 3 else [[1], [0]]):
+                want = gk_from_definition(rows_def, groups)
+                r.features.append('K>0' if want > 1e-12 else 'K=0')
+                for dd, aa, what in ((d, ident, 'the distribution'), (d2, addr, 'its form after "%s"' % case['transform'])):
+                    got = float(mv.gk_common_information(dd, [[aa(i) for i in g] for g in groups]))
+                    if abs(got - want) > 1e-9:
+                        r.oracle_fail = ('gk_common_information%s = %r on %s; the entropy of the connected components of the '
+                                         'support is %r' % (groups, got, what, want))
+                        r.detail = {'measure': 'gk_common_information', 'groups': groups, 'observed': got, 'expected': want}
+                        return
+        # correspondence: the model's value for a representative entropy-combination measure
         rows = [(gen.from_py(o, case['klass']), float(v)) for o, v in zip(d.outcomes, d.pmf)]
         ftab = [[o, f2bits(v)] for o, v in rows]
         import dit.multivariate as mv
@@ -270,7 +444,7 @@ class C08(object):
                 return
         # transformations that keep the outcome labels may be applied to ONE argument only; the second distribution
         # then also lives on a different (smaller) support: outcomes are matched by label, never by position
-        if case['transform'] in ('row-order', 'dense', 'pad-space', 'log-sparse') and len(case['outs']) >= 2:
+        if case['transform'] in ('row-order', 'dense', 'pad-space', 'log-sparse') + ZERO_ROUTES and len(case['outs']) >= 2:
             third = dict(case)
             fr = [Fraction(p) for p in case['pmf']]
             third['outs'] = case['outs'][1:]
@@ -289,6 +463,19 @@ class C08(object):
                     if not self.same(x, y, 1e-9):
                         r.oracle_fail = ('%s = %r but %r after transforming the %s argument by "%s"'
                                          % (name, x, y, what, case['transform']))
+                        return
+        if case['transform'] == 'embed':
+            # divergences restricted to the addressed variables (rvs given by position in the longer distributions)
+            P = sorted(addr(i) for i in range(n))
+            sub = [i for i in range(n) if rs.randint(2)] or [0]
+            for name, f in [('kullback_leibler_divergence', D.kullback_leibler_divergence), ('cross_entropy', D.cross_entropy),
+                            ('renyi_divergence(2)', lambda a, b, rvs: D.renyi_divergence(a, b, alpha=2, rvs=rvs)),
+                            ('hellinger_divergence(0.5)', lambda a, b, rvs: D.hellinger_divergence(a, b, alpha=0.5, rvs=rvs))]:
+                for g0, g2 in ((list(range(n)), P), (sub, [addr(i) for i in sub])):
+                    x, y = float(f(d, e, rvs=g0)), float(f(d2, e2, rvs=g2))
+                    if not self.same(x, y, 1e-9):
+                        r.oracle_fail = ('%s(rvs=%s) = %r but %r with the same variables at positions %s of a longer '
+                                         'distribution' % (name, g0, x, y, g2))
                         return
         # a first argument whose (dense) sample space has the same SIZE as the second's but another alphabet: variable 0
         # never takes symbol s, and a fresh symbol with probability zero is in its alphabet instead
